@@ -73,10 +73,12 @@ _cnt = [0]
 def mkobj(s):
     _cnt[0] += 1
     n = _cnt[0]
+    # every second instance also uses an optional field with a non-JSON-native type (schema.org duration)
+    rich = {"duration": "PT%dM" % (n % 50 + 1)} if n % 2 == 0 else {}
     if s == "F":
-        return FILE(filename="f%d.txt" % n, encodingFormat="text/plain", contentSize=n, sha256="ab" * 32)
+        return FILE(filename="f%d.txt" % n, encodingFormat="text/plain", contentSize=n, sha256="ab" * 32, **rich)
     if s == "I":
-        return IMG(filename="i%d.png" % n, encodingFormat="image/png", contentSize=n, sha256="cd" * 32, width=n, height=2)
+        return IMG(filename="i%d.png" % n, encodingFormat="image/png", contentSize=n, sha256="cd" * 32, width=n, height=2, **rich)
     return DIR(name="dir%d" % n)
 
 
@@ -167,6 +169,8 @@ def do_action(mc, md, drv, act):
             ok = True
         except ValueError:
             ok = False
+        except Exception as e:  # noqa
+            return mc, ("attaching a valid instance failed", p, name, type(e).__name__, str(e)[:120])
         if ok == exists:
             return mc, ("set", p, name, "accepted although present" if ok else "refused although absent")
         if ok:
